@@ -26,7 +26,7 @@ EXHAUSTIVE_CLAIM = True
 RULE = ("is_url strings: directed near-misses; URL-grammar product of 13 protocol spellings x 8 userinfo x 42 hosts (known/unknown/1-letter/missing/IDN/punycode TLD, localhost- and IPv4-prefixed names, "
         "IPv4, bad labels) x 6 ports x 19 tails (spaces, tabs, newlines, unicode spaces, '@' in path) - quick: all single/pairwise deviations from two base URLs, thorough: full product; every sequence of "
         "<= 4 (thorough 5) tokens over a 17-token alphabet; seeded random. Each string is evaluated under all 16 option vectors, bare and wrapped in whitespace. "
-        "urls_from_text texts: directed; every sequence of <= 4 (thorough 5) tokens over a 21-token alphabet (URLs with/without protocol/path, word, space, ASCII and typographic punctuation, markdown brackets); "
+        "urls_from_text texts: directed; every sequence of <= 4 (thorough 5) tokens over a 23-token alphabet (incl. non-ASCII spaces) (URLs with/without protocol/path, word, space, ASCII and typographic punctuation, markdown brackets); "
         "12 URL shapes x every character (and ordered pair) of IRRELEVANT_PUNCTUATION x 4 contexts; markdown links 12 labels x 14 targets x 12 contexts and truncated at every character; seeded random longer texts. "
         "A case is one string or one text; non-trivial = the string is accepted under at least one option vector / the text makes urls_from_text yield or raise; distinct = distinct string (kind, text).")
 ASSUMPTIONS = [
@@ -496,7 +496,7 @@ SBASES = [(0, 0, 0, 0, 0), (4, 2, 5, 1, 3)]  # http://a.com ; wss://u:p@a.zzzz:8
 
 STOKENS = ["http://", "//", "a", ".", "com", "c", "zzzz", ":", "80", "/", " ", "@", "localhost", "1.2.3.4", "?", "#", "\u00e9"]
 
-TTOKENS = ["http://t.co", "https://a.com/x", "b.org/y", "foo", " ", ".", ",", "\u2026", "\u2019", "(", ")", "[", "](", "]", "/", "?", "#", "//", ":", "@", "-"]
+TTOKENS = ["http://t.co", "https://a.com/x", "b.org/y", "foo", " ", ".", ",", "\u2026", "\u2019", "(", ")", "[", "](", "]", "/", "?", "#", "//", ":", "@", "-", "\u3000", "\u2003"]
 URL_TOKENS = {"http://t.co", "https://a.com/x", "b.org/y"}
 
 PUNCT_URLS = ["http://a.com", "http://t.co", "http://t.c", "http://a.com/x", "http://a.com/x?q=1", "http://a.com/#f", "http://a.com.", "http://a.com:80", "http://1.2.3.4", "http://localhost",
